@@ -186,6 +186,22 @@ static void one_case(char* line) {
       } catch (e) { st = 2; }
       if (st == 0) P("%" PRId64, (int64_t)r); else P(st == 1 ? "none" : "raise");
     }
+    if (strcmp(sort, "I") == 0 or strcmp(sort, "S") == 0) {
+      /* the same keys in a Table (its lookups go through eq) */
+      var h = new_raw(Table, type_of(keys[0]), Int);
+      volatile int tf = 0;
+      try { for (int i = 0; i < n; i++) set(h, keys[i], $I(i)); } catch (e) { tf = 1; }
+      P(" |");
+      for (int i = 0; i < n; i++) {
+        volatile int64_t r = -1; volatile int st = tf ? 2 : 0;
+        if (!tf) {
+          try {
+            if (mem(h, keys[i])) r = c_int(get(h, keys[i])); else st = 1;
+          } catch (e) { st = 2; }
+        }
+        if (st == 0) P(" %" PRId64, (int64_t)r); else P(st == 1 ? " none" : " raise");
+      }
+    }
     return;
   }
   P("BADCASE");
